@@ -30,9 +30,13 @@ var errInvalid = errors.New("hcfg: invalid")
 // verifyLog records Verify calls (ghost state).
 var verifyLog []hcfg
 
+// verifyExternalFail makes Verify fail for a reason outside the config (a dependency that is
+// down, say); only set around calls that are documented not to verify.
+var verifyExternalFail bool
+
 func (c *hcfg) Verify() error {
 	verifyLog = append(verifyLog, *c)
-	if c.Bad {
+	if c.Bad || verifyExternalFail {
 		return errInvalid
 	}
 	return nil
